@@ -397,8 +397,8 @@ fn full_width(ctx: &mut Ctx) {
 }
 
 pub fn run(ctx: &mut Ctx) {
-    ctx.set("rule", json!("E1: BFS over FiniteDomain representations (variant + exact contents) from all intervals, all From<Vec> inputs and all sorted sparse sets of a 7-value (thorough: 11-value) window, From<Vec> inputs of length <= 3 (thorough: 5); actions intersect/diff/is_disjoint/== with every reached state (both orders), copy_before/drop_before with every predicate (all subsets of the window); lock-step BTreeSet model; every observer compared on every state. distinct_nontrivial = distinct representations reached."));
-    let (vec_len, width) = if ctx.quick() { (3usize, 7i64) } else { (5usize, 11i64) };
+    ctx.set("rule", json!("E1: BFS over FiniteDomain representations (variant + exact contents) from all intervals, all From<Vec> inputs and all sorted sparse sets of a 9-value (thorough: 11-value) window, From<Vec> inputs of length <= 4 (thorough: 5); actions intersect/diff/is_disjoint/== with every reached state (both orders), copy_before/drop_before with every predicate (all subsets of the window); lock-step BTreeSet model; every observer compared on every state. distinct_nontrivial = distinct representations reached."));
+    let (vec_len, width) = if ctx.quick() { (4usize, 9i64) } else { (5usize, 11i64) };
     crate::pool::on_big_stack(|| {
         explore_window(ctx, -3, width, vec_len, "small");
         // windows hugging the extreme isize bounds
